@@ -46,6 +46,11 @@ OPEN_TYPE_oer_get(const asn_codec_ctx_t *opt_codec_ctx,
         if(CHOICE_variant_set_presence(elm->type, *memb_ptr2, 0) != 0) {
             ASN__DECODE_FAILED;
         }
+    } else {
+        /* An OPTIONAL open type member: the holder is not there yet */
+        const asn_CHOICE_specifics_t *ot_specs = elm->type->specifics;
+        *memb_ptr2 = CALLOC(1, ot_specs->struct_size);
+        if(*memb_ptr2 == NULL) ASN__DECODE_FAILED;
     }
 
     inner_value =
@@ -80,7 +85,9 @@ OPEN_TYPE_oer_get(const asn_codec_ctx_t *opt_codec_ctx,
         const asn_CHOICE_specifics_t *specs =
             elm->type->specifics;
         if(elm->flags & ATF_POINTER) {
-            ASN_STRUCT_FREE(*selected.type_descriptor, inner_value);
+            ASN_STRUCT_FREE_CONTENTS_ONLY(*selected.type_descriptor,
+                                          inner_value);
+            FREEMEM(*memb_ptr2);
             *memb_ptr2 = NULL;
         } else {
             ASN_STRUCT_FREE_CONTENTS_ONLY(*selected.type_descriptor,
